@@ -7,14 +7,14 @@ def digits(shape, base, n):
         shape //= base
     return out
 
-def E(nt, tshape, ng, gshape, nk, symlines=0, explicit=0, tag="E", gkeys=0):
-    return {"name": "%s-t%d.%d-g%d.%d-k%d-l%d-x%d-c%d" % (tag, nt, tshape, ng, gshape, nk, symlines, explicit, gkeys), "func": "VerifHarness_Equiv",
-            "params": {"nt": nt, "tshape": tshape, "ng": ng, "gshape": gshape, "nk": nk, "symlines": symlines, "explicit": explicit, "gkeys": gkeys},
+def E(nt, tshape, ng, gshape, nk, symlines=0, explicit=0, tag="E", gkeys=0, viaparse=0):
+    return {"name": "%s-t%d.%d-g%d.%d-k%d-l%d-x%d-c%d%s" % (tag, nt, tshape, ng, gshape, nk, symlines, explicit, gkeys, "-p%d" % viaparse if viaparse else ""), "func": "VerifHarness_Equiv",
+            "params": {"nt": nt, "tshape": tshape, "ng": ng, "gshape": gshape, "nk": nk, "symlines": symlines, "explicit": explicit, "gkeys": gkeys, "viaparse": viaparse},
             "unwind": 80, "reach": ["end"]}
 
-def W(nr, nk, depth, wshape, symlines=0, tag="W"):
-    return {"name": "%s-r%d-k%d-d%d.%d-l%d" % (tag, nr, nk, depth, wshape, symlines), "func": "VerifHarness_Wrap",
-            "params": {"nr": nr, "nk": nk, "depth": depth, "wshape": wshape, "symlines": symlines, "explicit": 0, "gkeys": 0},
+def W(nr, nk, depth, wshape, symlines=0, tag="W", viaparse=0):
+    return {"name": "%s-r%d-k%d-d%d.%d-l%d%s" % (tag, nr, nk, depth, wshape, symlines, "-p%d" % viaparse if viaparse else ""), "func": "VerifHarness_Wrap",
+            "params": {"nr": nr, "nk": nk, "depth": depth, "wshape": wshape, "symlines": symlines, "explicit": 0, "gkeys": 0, "viaparse": viaparse},
             "unwind": 80, "reach": ["end"]}
 
 def gshapes(ng, tier):
@@ -51,6 +51,13 @@ def cut_jobs(tier):
     if tier == "quick":
         out += [W(1, 0, 3, ws) for ws in (0, 1 + 6 * 2 + 36 * 1, 2 + 6 * 0 + 36 * 2, 0 + 6 * 3 + 36 * 0, 4 + 6 * 1 + 36 * 5, 1 + 6 * 1 + 36 * 1)]
     out += [W(2, 1, 1, 1, symlines=1), W(1, 1, 2, 2 + 6 * 1, symlines=1)]
+    # the same lemmas through Parser.Parse's document loop (decoder cut): one document, and a file of two documents
+    for depth in range(1, 3):
+        for ws in range(6 ** depth):
+            if tier != "quick" or depth == 1 or ws % 5 == 2:
+                out.append(W(1, 1, depth, ws, viaparse=1))
+    out += [W(1, 1, 1, ws, viaparse=2) for ws in (0, 2, 5)]
+    out += [E(1, 1, 2, 8, 1, viaparse=1), E(1, 2, 2, 12, 0, gkeys=1, viaparse=1), E(2, 1, 2, 8, 0, viaparse=1)]
     return out
 
 def real_jobs(tier):
@@ -77,5 +84,5 @@ PROP = {
     "assumptions": ["node invariant of the yaml.v3 parser (as C01)", "YAML-in-YAML re-parse stubbed to 'not YAML' (no scalar has more than one line break)",
                     "W: the innermost key of a rule list is not `groups` (reserved: a sequence under `groups` is a list of groups); sibling values are leaves (they hold no rules of their own)",
                     "decomposed run: wrappers and leaf siblings are not rules (the real parseRule returns 'empty' for a mapping without record/alert/expr keys)"],
-    "outside": ["YAML-in-YAML re-parsing", "Parser.Parse document loop, multi-document files", "text-level displacement of lines/columns by the wrapper", "aliases/anchors/merge keys", "comments"],
+    "outside": ["YAML-in-YAML re-parsing", "the YAML decoder and content reader under Parser.Parse (cut: Parse's loop is executed on the harness' documents; -p jobs)", "text-level displacement of lines/columns by the wrapper", "aliases/anchors/merge keys", "comments"],
 }
